@@ -66,6 +66,9 @@ def check(run):
                 [(root + 1) % P], [root] * 3]
         for st in sets:
             roots(full, b"".join(le(r, 32) for r in st))
+        # the untampered message once more, after all its altered copies (a verdict remembered for the proof bytes, in either
+        # direction, shows on one side of this sandwich)
+        rln(full); raw(msg); roots(full, le(root, 32))
         lines = rlngen.with_oracle(zkh, lm)
         seq = M["setup"] + lines
         # verifier trees with and without the root after further updates
